@@ -8,10 +8,12 @@ import (
 	"fmt"
 	"math"
 	"math/rand"
+	"reflect"
 	"strconv"
 	"strings"
 	"sync/atomic"
 	"testing"
+	"time"
 	"unicode"
 
 	"github.com/samsarahq/thunder/batch"
@@ -127,6 +129,7 @@ type caseData struct {
 	poolM    []mItem // every element generated for the case; items/env hold the current state of the mutable store
 	poolI    []ItemI
 	poolS    []ItemS
+	poolX    interface{} // typed pool of the connections with the less common key types
 	items    []mItem
 	env      *caseEnv
 	batching bool
@@ -191,6 +194,135 @@ func mkS(id string, a Attr) ItemS {
 	return ItemS{Id: id, N: a.N, S: a.S, F: a.F, U: a.U, B: a.B, W: a.W, I: a.I, V: a.V, G: a.G, T0: a.T[0], T1: a.T[1], T2: a.T[2]}
 }
 
+var timeZones = []*time.Location{time.UTC, time.FixedZone("CET", 3600), time.FixedZone("", -(5*3600 + 1800)), time.FixedZone("X", 14*3600)}
+
+// genOddKeys makes n elements with unique keys of one of the less common key
+// types; the printed forms of the keys are deliberately close to each other.
+func genOddKeys(r *rand.Rand, kind, n int, sh listShape) ([]mItem, interface{}) {
+	items := make([]mItem, 0, n)
+	switch kind {
+	case keyTime:
+		// distinct instants, most of them inside the same one or two seconds
+		// (milli/micro/nanosecond apart), in several locations
+		base := time.Unix(1600000000+int64(r.Intn(1000000)), 0)
+		usedNs := map[int64]bool{}
+		var out []ItemT
+		for i := 0; i < n; i++ {
+			var off int64
+			for {
+				switch r.Intn(4) {
+				case 0:
+					off = int64(r.Intn(1000)) * 1e6 // another millisecond of the same second
+				case 1:
+					off = int64(r.Intn(50)) // a few nanoseconds apart
+				case 2:
+					off = 1e9 + int64(r.Intn(1000))*1e3 // next second, microseconds
+				default:
+					off = int64(r.Intn(5))*1e9 + int64(r.Intn(3))*5e8
+				}
+				if !usedNs[off] {
+					break
+				}
+			}
+			usedNs[off] = true
+			t := base.Add(time.Duration(off)).In(timeZones[r.Intn(len(timeZones))])
+			a := genAttr(r, sh)
+			it := ItemT{Id: t, N: a.N, S: a.S, F: a.F, U: a.U, B: a.B, W: a.W, I: a.I, V: a.V, G: a.G, T0: a.T[0], T1: a.T[1], T2: a.T[2]}
+			out = append(out, it)
+			items = append(items, mItem{id: it.key(), attr: a})
+		}
+		return items, out
+	case keyUint64:
+		used := map[uint64]bool{}
+		var out []ItemU
+		for i := 0; i < n; i++ {
+			var id uint64
+			for {
+				switch r.Intn(4) {
+				case 0:
+					id = math.MaxUint64 - uint64(r.Intn(2*n+2))
+				case 1:
+					id = 1<<63 + uint64(r.Intn(2*n+2))
+				case 2:
+					id = 1<<53 + uint64(r.Intn(2*n+2))
+				default:
+					id = uint64(r.Intn(2*n + 2))
+				}
+				if !used[id] {
+					break
+				}
+			}
+			used[id] = true
+			a := genAttr(r, sh)
+			it := ItemU{Id: id, N: a.N, S: a.S, F: a.F, U: a.U, B: a.B, W: a.W, I: a.I, V: a.V, G: a.G, T0: a.T[0], T1: a.T[1], T2: a.T[2]}
+			out = append(out, it)
+			items = append(items, mItem{id: it.key(), attr: a})
+		}
+		return items, out
+	case keyCode:
+		used := map[string]bool{}
+		perm := r.Perm(len(stringKeyPool))
+		var out []ItemC
+		for i := 0; i < n; i++ {
+			var id string
+			if i < len(perm) && r.Intn(3) != 0 {
+				id = stringKeyPool[perm[i]]
+			} else {
+				id = fmt.Sprintf("c%d %s", i, randCase(r, fword(r, sh.alpha, 3)))
+			}
+			if used[id] {
+				id = fmt.Sprintf("u%d", i)
+			}
+			used[id] = true
+			a := genAttr(r, sh)
+			it := ItemC{Id: Code(id), N: a.N, S: a.S, F: a.F, U: a.U, B: a.B, W: a.W, I: a.I, V: a.V, G: a.G, T0: a.T[0], T1: a.T[1], T2: a.T[2]}
+			out = append(out, it)
+			items = append(items, mItem{id: it.key(), attr: a})
+		}
+		return items, out
+	default: // keyRank
+		used := map[int32]bool{}
+		var out []ItemR
+		for i := 0; i < n; i++ {
+			var id int32
+			for {
+				switch r.Intn(4) {
+				case 0:
+					id = math.MinInt32 + int32(r.Intn(2*n+2))
+				case 1:
+					id = math.MaxInt32 - int32(r.Intn(2*n+2))
+				case 2:
+					id = -int32(r.Intn(2*n + 2))
+				default:
+					id = int32(r.Intn(2*n+2)) - int32(n)
+				}
+				if !used[id] {
+					break
+				}
+			}
+			used[id] = true
+			a := genAttr(r, sh)
+			it := ItemR{Id: Rank(id), N: a.N, S: a.S, F: a.F, U: a.U, B: a.B, W: a.W, I: a.I, V: a.V, G: a.G, T0: a.T[0], T1: a.T[1], T2: a.T[2]}
+			out = append(out, it)
+			items = append(items, mItem{id: it.key(), attr: a})
+		}
+		return items, out
+	}
+}
+
+// subsetAny picks pool[idx...] out of a typed slice held in an interface.
+func subsetAny(pool interface{}, idx []int) interface{} {
+	pv := reflect.ValueOf(pool)
+	if !pv.IsValid() {
+		return nil
+	}
+	out := reflect.MakeSlice(pv.Type(), 0, len(idx))
+	for _, p := range idx {
+		out = reflect.Append(out, pv.Index(p))
+	}
+	return out.Interface()
+}
+
 func genList(r *rand.Rand, c connSpec) ([]mItem, *caseEnv, listShape) {
 	var n int
 	switch x := r.Intn(20); {
@@ -207,7 +339,9 @@ func genList(r *rand.Rand, c connSpec) ([]mItem, *caseEnv, listShape) {
 	sh := genShape(r, n)
 	items := make([]mItem, 0, n)
 	usedS := map[string]bool{}
-	if c.stringKey {
+	if c.keyKind != 0 {
+		items, env.itemsX = genOddKeys(r, c.keyKind, n, sh)
+	} else if c.stringKey {
 		perm := r.Perm(len(stringKeyPool))
 		for i := 0; i < n; i++ {
 			var id string
@@ -259,6 +393,7 @@ func genList(r *rand.Rand, c connSpec) ([]mItem, *caseEnv, listShape) {
 	}
 	env.filterFlag = genFlag()
 	env.sortFlag = genFlag()
+	env.parallel = []int{0, 0, 1, 2, 2, 3, 3, 7, 1000}[r.Intn(9)]
 	return items, env, sh
 }
 
@@ -596,11 +731,15 @@ func (c *checker) witness(what, q string, vars map[string]interface{}, extra map
 		"sort_bf_flag":      fmt.Sprintf("%s k=%d seed=%d", flagModeNames[c.cd.env.sortFlag.mode], c.cd.env.sortFlag.k, c.cd.env.sortFlag.seed),
 		"filtered_sorted":   ids(c.l),
 	}
-	if c.cd.conn.stringKey {
+	switch {
+	case c.cd.conn.keyKind != 0:
+		w["list"] = c.cd.env.itemsX
+	case c.cd.conn.stringKey:
 		w["list"] = c.cd.env.itemsS
-	} else {
+	default:
 		w["list"] = c.cd.env.itemsI
 	}
+	w["num_parallel_invocations_option"] = c.cd.env.parallel
 	for k, v := range extra {
 		w[k] = v
 	}
@@ -1023,14 +1162,29 @@ func (c *checker) setState(idx []int) {
 	var ss []ItemS
 	for _, p := range idx {
 		cd.items = append(cd.items, cd.poolM[p])
-		if cd.conn.stringKey {
+		switch {
+		case cd.conn.keyKind != 0:
+		case cd.conn.stringKey:
 			ss = append(ss, cd.poolS[p])
-		} else {
+		default:
 			is = append(is, cd.poolI[p])
 		}
 	}
 	cd.env.itemsI, cd.env.itemsS = is, ss
+	if cd.conn.keyKind != 0 {
+		cd.env.itemsX = subsetAny(cd.poolX, idx)
+	}
+	c.setSlow()
 	c.setList()
+}
+
+// setSlow marks the first half of the current list (see caseEnv.slow).
+func (c *checker) setSlow() {
+	slow := make(map[string]bool, len(c.cd.items)/2+1)
+	for i := 0; i < (len(c.cd.items)+1)/2; i++ {
+		slow[c.cd.items[i].id] = true
+	}
+	c.cd.env.slow = slow
 }
 
 // setList re-derives the filtered+sorted list of the current view from the
@@ -1324,13 +1478,18 @@ func (c *checker) failHistory(r *rand.Rand, reps int) {
 
 func runCase(run *vlib.Run, ex *executor, i int) {
 	r := run.Rand("case", i)
-	ci := r.Intn(len(conns))
+	ci := r.Intn(4)
+	if r.Intn(10) < 3 {
+		ci = 4 + r.Intn(len(conns)-4)
+	}
 	conn := conns[ci]
 	items, env, sh := genList(r, conn)
 	cd := &caseData{conn: conn, items: items, env: env, batching: r.Intn(2) == 0, alpha: sh.alpha, odd: sh.odd}
-	cd.poolM, cd.poolI, cd.poolS = items, env.itemsI, env.itemsS
+	cd.poolM, cd.poolI, cd.poolS, cd.poolX = items, env.itemsI, env.itemsS, env.itemsX
 
 	c := &checker{run: run, ex: ex, i: i, cd: cd}
+	c.setSlow()
+	run.Count(fmt.Sprintf("num_parallel_invocations_option:%d", env.parallel), 1)
 
 	// Step 0: plain listing (no arguments): every element once, in the order
 	// the resolver returned them; learn each element's cursor from the edges
@@ -1475,8 +1634,8 @@ func runCase(run *vlib.Run, ex *executor, i int) {
 func TestCheck(t *testing.T) {
 	run := vlib.Start(t, "C11", "exploration")
 	defer run.Finish()
-	run.Rule("case = one list (0-40 elements, unique int or string keys, sort values with duplicates, three mixed-case filter texts per element) served by one of four thunder-managed paginated fields " +
-		"(value/pointer nodes x int/string key; filter fields plain/Expensive/batch/batch-with-fallback, 36 sort fields = int64/string/float64/uint16/int32/uint32/float32 + int64 and uint64 with clusters of values above 2^53 (1<<60+d, MaxInt64-d, MinInt64+d, 1<<63+d, MaxUint64-d; d far below the float64 spacing) x plain/Expensive/batch/batch-with-fallback, fallback flags random; the model compares every sort value exactly in its own type) " +
+	run.Rule("case = one list (0-40 elements, unique int64 or string keys — in 30 % of the cases keys of a less common type with close printed forms: time.Time (distinct instants milli/micro/nanoseconds apart within one second, four locations), uint64 near 2^64 / 2^63 / 2^53, a named string type, a named int32 type near its limits —, sort values with duplicates, three mixed-case filter texts per element) served by one of eight thunder-managed paginated fields " +
+		"(value/pointer nodes x int/string key, plus four fields for the other key types; every batch filter / sort field (and the batch leg of the with-fallback ones) carries the NumParallelInvocationsFunc option answering 1, 2, 3, 7 or 1000 per case, and a batch invocation yields the processor in proportion to the number of first-half elements it holds, so that concurrent invocations over later nodes would finish first; filter fields plain/Expensive/batch/batch-with-fallback, 36 sort fields = int64/string/float64/uint16/int32/uint32/float32 + int64 and uint64 with clusters of values above 2^53 (1<<60+d, MaxInt64-d, MinInt64+d, 1<<63+d, MaxUint64-d; d far below the float64 spacing) x plain/Expensive/batch/batch-with-fallback, fallback flags random; the model compares every sort value exactly in its own type) " +
 		"x 1-2 views (filterText of space-separated words / quoted phrases / empty tokens, words and node texts in mixed case over a per-case 4-letter alphabet that in half of the cases contains non-ASCII letters (Latin-1, Cyrillic, Greek, letters whose two cases differ in encoded length: U+023A/U+2C65, Kelvin sign, U+0130), in a third of the cases also white-space runes that do not separate tokens (NBSP, U+3000, \\v, U+2028, U+0085, U+1680, U+2003) inside bare and quoted tokens and between the words of node texts, and \\t \\n \\f \\r as token separators; optional filterTextFields subset incl. an unknown name, sortBy/sortOrder asc/desc/default). " +
 		"Per view: the whole list, a forward walk (first/after from endCursor while hasNextPage), a backward walk (last/before from startCursor while hasPrevPage), 10 absolute-position queries " +
 		"(first or last in {0,1,<len,=len,>len}; after/before valid first/middle/last, unknown = garbage / empty / base64 of a missing key / cursor of a filtered-out element; both cursors ordered, adjacent, same, inverted), " +
